@@ -1,6 +1,8 @@
 SPECIFICATION Spec
 CONSTANTS
   MaxReq = 4
+  McastEnabled = FALSE
+  Protos <- ProtosUT
   UDPEnabled = TRUE
   HasRecord = TRUE
   HasPlay = TRUE
